@@ -27,6 +27,10 @@ type c15Task struct {
 	MaxLen int    `json:"maxlen"`
 	From   int    `json:"from"`
 	To     int    `json:"to"`
+	// Adj selects the second universe: user keys over {0x00,0x01,'a','b',0xfe,0xff} up to
+	// length 2 - bytes that are neighbours of each other and of the 0xff ceiling, the inputs on
+	// which "can this byte be incremented and still stay below the limit" flips.
+	Adj bool `json:"adj,omitempty"`
 }
 
 type c15Result struct {
@@ -34,8 +38,11 @@ type c15Result struct {
 	Viol  []string
 }
 
-func c15Users(maxLen int) [][]byte {
-	alpha := []byte{0x00, 'a', 0xff}
+func c15Users(maxLen int) [][]byte { return c15UsersOver([]byte{0x00, 'a', 0xff}, maxLen) }
+
+var c15AdjAlpha = []byte{0x00, 0x01, 'a', 'b', 0xfe, 0xff}
+
+func c15UsersOver(alpha []byte, maxLen int) [][]byte {
 	out := [][]byte{{}}
 	level := [][]byte{{}}
 	for l := 1; l <= maxLen; l++ {
@@ -60,9 +67,11 @@ type ik struct {
 	k    []byte
 }
 
-func c15Keys(maxLen int) []ik {
+func c15Keys(maxLen int) []ik { return c15KeysOf(c15Users(maxLen)) }
+
+func c15KeysOf(users [][]byte) []ik {
 	var out []ik
-	for _, u := range c15Users(maxLen) {
+	for _, u := range users {
 		for _, s := range c15Seqs {
 			for _, kd := range []int{leveldb.VerifKeyTypeDel, leveldb.VerifKeyTypeVal} {
 				out = append(out, ik{u, s, kd, leveldb.VerifMakeIKey(u, s, kd)})
@@ -87,6 +96,9 @@ func runC15(t *c15Task) *c15Result {
 	ucmp := harness.Comparers[t.Cmp]
 	icmp := leveldb.VerifIComparerFull(ucmp)
 	keys := c15Keys(t.MaxLen)
+	if t.Adj {
+		keys = c15KeysOf(c15UsersOver(c15AdjAlpha, t.MaxLen))
+	}
 	bad := func(f string, a ...any) bool {
 		res.Viol = append(res.Viol, t.Cmp+": "+fmt.Sprintf(f, a...))
 		return len(res.Viol) >= 3
@@ -172,6 +184,9 @@ func runC15(t *c15Task) *c15Result {
 		}
 	case "sep":
 		users := c15Users(t.MaxLen)
+		if t.Adj {
+			users = c15UsersOver(c15AdjAlpha, t.MaxLen)
+		}
 		for i := t.From; i < to; i++ {
 			a := keys[i]
 			if s := icmp.Successor(nil, a.k); s != nil {
@@ -311,11 +326,16 @@ func init() {
 			}
 			nk := len(c15Keys(maxLen))
 			nt := len(c15Keys(tripleLen))
+			nadj := len(c15KeysOf(c15UsersOver(c15AdjAlpha, 2)))
 			var tasks []c15Task
 			for _, k := range harness.ComparerNames {
 				for from := 0; from < nk; from += 40 {
 					tasks = append(tasks, c15Task{Cmp: k, Kind: "pairs", MaxLen: maxLen, From: from, To: from + 40})
 					tasks = append(tasks, c15Task{Cmp: k, Kind: "sep", MaxLen: maxLen, From: from, To: from + 40})
+				}
+				for from := 0; from < nadj; from += 40 {
+					tasks = append(tasks, c15Task{Cmp: k, Kind: "pairs", MaxLen: 2, From: from, To: from + 40, Adj: true})
+					tasks = append(tasks, c15Task{Cmp: k, Kind: "sep", MaxLen: 2, From: from, To: from + 40, Adj: true})
 				}
 				step := 8
 				for from := 0; from < nt; from += step {
@@ -357,14 +377,15 @@ func init() {
 					}
 				})
 			}
-			c.Coverage["states"] = nk * len(harness.ComparerNames)
+			c.Coverage["states"] = (nk + nadj) * len(harness.ComparerNames)
 			c.Coverage["traces_validated_against_impl"] = c.Get("evals_route")
 			c.Coverage["internal_keys"] = nk
 			c.Coverage["internal_keys_for_triples"] = nt
+			c.Coverage["internal_keys_adjacent_bytes_universe"] = nadj
 			c.Coverage["comparers"] = harness.ComparerNames
 			c.SetExhaustive(exh && done == len(tasks))
 			c.Sample(map[string]any{"user_keys": []string{"", "\\x00", "a", "\\xff", "\\x00a", "a\\xff\\xff"}, "seqs": c15Seqs, "kinds": []string{"del", "val"}})
-			c.Coverage["rule"] = "states = internal keys x comparers (all strings over {0x00,'a',0xff} of length <=3 (thorough: <=4 for the pair laws) x seq {0,1,2,2^56-1} x {del,val} = 320 keys, 5 comparers); transitions = individual law evaluations: antisymmetry / identity / user-key-major newest-first / probe placement on all ordered pairs, transitivity on all triples of the length<=3 universe, a<=Separator(a,b)<b and Successor(b)>=b on all ordered pairs for the internal and the user comparers, and Find of every stored key in every table of <=4 one-entry blocks over a 24-key sub-universe (index keys are the shortened separators)"
+			c.Coverage["rule"] = "states = internal keys x comparers (all strings over {0x00,'a',0xff} of length <=3 (thorough: <=4 for the pair laws) x seq {0,1,2,2^56-1} x {del,val} = 320 keys, 5 comparers; plus, for the pair and separator laws, a second universe of all strings over {0x00,0x01,'a','b',0xfe,0xff} of length <=2 - neighbouring bytes and the 0xff ceiling, where shortening flips between possible and impossible); transitions = individual law evaluations: antisymmetry / identity / user-key-major newest-first / probe placement on all ordered pairs, transitivity on all triples of the length<=3 universe, a<=Separator(a,b)<b and Successor(b)>=b on all ordered pairs for the internal and the user comparers, and Find of every stored key in every table of <=4 one-entry blocks over a 24-key sub-universe (index keys are the shortened separators)"
 			c.Assume = []string{"the five comparers satisfy the documented Comparer contract (their Separator/Successor laws are checked too)"}
 		},
 	})
